@@ -60,11 +60,13 @@ Proof.
 Qed.
 
 (* what BaseLinker.__init__ leaves when handed the dict at d (an older object) by reference *)
-Theorem init_linker_spec h c K a d nme lg ld h3 r3 :
+Lemma init_linker_spec_strong h c K a d nme lg ld h3 r3 :
   init_M h c K a = (h3, r3, true) -> ia_linker a = Some (SArg d, nme, lg, ld) -> src_safe KP (ia_span a) = true ->
   wf h -> (d < length h)%nat ->
   r3 = length h /\ (forall x, (x < length h)%nat -> nth_error h3 x = nth_error h x) /\
-  exists o3, nth_error h3 r3 = Some o3 /\ cell_get KP (ocells o3) = Some (VR d).
+  pinv KP r3 h3 /\
+  exists o3, nth_error h3 r3 = Some o3 /\ cell_get KP (ocells o3) = Some (VR d) /\
+             forall x, In (KP, VR x) (ocells o3) -> x = d.
 Proof.
   unfold init_M, new_instance. cbn [fst snd]. set (h0 := h ++ [mkObj (KCont c) []]). set (R := length h).
   intros I L SP W D.
@@ -102,10 +104,26 @@ Proof.
   destruct (run_actions hB R Rest) as [hC okC] eqn:RC.
   destruct (actions_safe KP R Rest hB hC okC PB S2 RC) as (PC & KC & OC).
   inversion I; subst h3 r3 okC; clear I.
-  split; [reflexivity|]. split.
+  split; [reflexivity|]. split; [|split; [exact PC|]].
   - intros x Lx. fold R in Lx. rewrite OC by exact Lx. rewrite OB by exact Lx. unfold h0. apply nth_error_app_old. exact Lx.
-  - destruct PC as (_ & _ & _ & oC & HoC & _). exists oC. split; [exact HoC|].
-    rewrite KB in KC. unfold cell_kp in KC. rewrite HoC in KC. exact KC.
+  - pose proof PC as (_ & _ & _ & oC & HoC & _). exists oC. split; [exact HoC|]. split.
+    + rewrite KB in KC. unfold cell_kp in KC. rewrite HoC in KC. exact KC.
+    + intros x Hin.
+      assert (HoB : nth_error hB R = Some (mkObj (okind oA) (cell_set KP (VR d) (ocells oA)))) by (apply nth_error_upd_eq; exact LRA).
+      pose proof (actions_safe_kpcells KP R Rest hB hC true PB S2 RC _ oC HoB HoC x Hin) as HinB. cbn [ocells] in HinB.
+      apply in_cell_set in HinB. destruct HinB as [HinA|HinA]; [|inversion HinA; reflexivity].
+      exfalso.
+      exact (actions_safe_kpcells KP R P1 h0 hA true P0 S1 RA (mkObj (KCont c) []) oA (nth_error_app_new h _) HoA x HinA).
+Qed.
+
+Theorem init_linker_spec h c K a d nme lg ld h3 r3 :
+  init_M h c K a = (h3, r3, true) -> ia_linker a = Some (SArg d, nme, lg, ld) -> src_safe KP (ia_span a) = true ->
+  wf h -> (d < length h)%nat ->
+  r3 = length h /\ (forall x, (x < length h)%nat -> nth_error h3 x = nth_error h x) /\
+  exists o3, nth_error h3 r3 = Some o3 /\ cell_get KP (ocells o3) = Some (VR d).
+Proof.
+  intros I L SP W D. destruct (init_linker_spec_strong h c K a d nme lg ld h3 r3 I L SP W D) as (E & U & _ & o3 & O1 & O2 & _).
+  split; [exact E|]. split; [exact U | exists o3; split; [exact O1 | exact O2]].
 Qed.
 
 (* ------------------------------------------------------------------ keys *)
